@@ -750,6 +750,24 @@ def g_pow2_digits(F, rng, tier):
     return out
 
 
+def g_trailing_zeros(F, rng, tier):
+    """G26: significands WRITTEN with trailing integer zeros (d x 10^k as integer digits, k = 1..18) for EVERY decimal
+    exponent of the format: the same value as the short spelling, but the 64-bit significand handed to the middle stage and
+    to the digit-counting loops (`scientific_exponent`) is a power of ten or d x 10^k - the fence posts of every "how many
+    digits" computation. Only the handful of powers of ten that the middle stage cannot decide reach those loops, hence
+    every exponent and not a sample"""
+    out = []
+    q = tier == "quick"
+    ks = (1, 2, 3, 4, 8, 9, 16, 17, 18) if q else range(1, 19)
+    for n in range(F.p10_lo - 2, F.p10_hi + 2):
+        for k in ks:
+            out.append(mk(F.name, "1" + "0" * k, "", n - k, "G26:pow10-significand"))
+        for d in ((rng.randrange(2, 10),) if q else range(2, 10)):
+            for k in ((rng.choice((1, 2, 3)), rng.randrange(4, 19)) if q else (1, 2, 3, 7, 12, 17, 18)):
+                out.append(mk(F.name, str(d) + "0" * k, "", n - k, "G26:trailing-zeros"))
+    return out
+
+
 def g_floats_exact(F, rng, n):
     """exactly representable values (the float itself, not the midpoint)"""
     out = []
@@ -1317,6 +1335,12 @@ def g_groups(F, rng, tier):
     for ds in ("1", "10", "10000", "12345678901234567890", "9999999999999999999", "18446744073709551616"):
         for e in (0, F.fast_exp, F.fast_exp + 1, -F.fast_exp - 1, F.disg_exp, F.p10_hi - len(ds), F.p10_lo + 5, 4, 8):
             group(ds.rstrip("0") or "1", e + len(ds) - len(ds.rstrip("0")), "C10:seam")
+    # every power of ten of the format written as 1, 10, 100, ... 10^18 times the complementary power (the significand
+    # handed to the middle stage is then itself a power of ten: digit-count fence posts)
+    for n in range(F.p10_lo - 1, F.p10_hi + 1):
+        ks = sorted(set([1, 18] + rng.sample(range(2, 18), 3))) if q else range(1, 19)
+        mem = [{"int": "1", "frac": "", "exp": n}] + [{"int": "1" + "0" * k, "frac": "", "exp": n - k} for k in ks]
+        out.append({"kind": "group", "fmt": F.name, "tag": "C10:pow10", "members": mem})
     # the decimal point moved by hundreds to tens of thousands of places, compensated by the exponent (run-length: cheap):
     # 0.000..0ddd e(+n) = ddd = ddd000..0 e(-n), for n around every bound an implementation may clamp at
     for ds in (("1", "9007199254740993") if q else ("1", "25", "9007199254740993", "17976931348623157", "49406564584124654")):
